@@ -254,7 +254,13 @@ cdef write_union(bytearray fo, datum, schema, dict named_schemas, fname, dict op
     cdef str extracted_type
     cdef str schema_name
     best_match_index = -1
-    if isinstance(datum, tuple) and not options.get("disable_tuple_notation"):
+    # Only a pair can be the (name, value) notation; any other tuple is a
+    # plain sequence (unpacking it here would raise instead of answering)
+    if (
+        isinstance(datum, tuple)
+        and len(datum) == 2
+        and not options.get("disable_tuple_notation")
+    ):
         (name, datum) = datum
         for index, candidate in enumerate(schema):
             extracted_type = extract_record_type(candidate)
